@@ -161,6 +161,7 @@ func ruleTimerDequeueCoupled() check.Rule {
 			for _, sc := range m.SCs {
 				armed := c.Armed(sc)
 				info := sc.Pkg.TypesInfo
+				seenLit := map[*ast.FuncLit]bool{}
 				for _, t := range sc.Timers {
 					if t.Fn != "AfterFunc" || len(t.Call.Args) != 2 {
 						continue
@@ -177,9 +178,10 @@ func ruleTimerDequeueCoupled() check.Rule {
 							}
 						}
 					}
-					if lit == nil {
+					if lit == nil || seenLit[lit] {
 						continue
 					}
+					seenLit[lit] = true
 					// head drop q = q[k:] in the callback
 					var drop *ast.AssignStmt
 					ast.Inspect(lit.Body, func(x ast.Node) bool {
